@@ -236,10 +236,20 @@ SAFE_BUILTINS = {
 NATIVE_TYPES = (str, bytes, bytearray, int, float, bool, tuple, list, dict, set, frozenset, type(None), range)
 
 
+def _default_trusted():
+    import base64, binascii, codecs, collections, collections.abc, enum, functools, html, ipaddress, itertools, math, operator, re, string, struct, textwrap
+
+    return {"itertools": itertools, "functools": functools, "operator": operator, "collections": collections, "string": string, "re": re, "math": math,
+            "struct": struct, "binascii": binascii, "base64": base64, "codecs": codecs, "textwrap": textwrap, "html": html, "enum": enum,
+            "ipaddress": ipaddress, "logging": NullLog()}
+
+
 class Interp:
     def __init__(self, model, trusted_modules=None, externals=None, max_depth=12, max_steps=400000):
         self.model = model
-        self.trusted = dict(trusted_modules or {})
+        # pure, deterministic stdlib modules every rule may see (a rule's own trusted_modules win); logging is a no-op stand-in:
+        # a harmless `import itertools` / `logger.debug(..)` added by a maintainer must not make a check refuse
+        self.trusted = {**_default_trusted(), **dict(trusted_modules or {})}
         self.externals = externals or {}
         self.max_depth = max_depth
         self.max_steps = max_steps
@@ -307,6 +317,19 @@ class Interp:
 
         container_method = isinstance(getattr(f, "__self__", None), (dict, list, set, frozenset, tuple, _c.deque)) or f in (list, tuple, set, frozenset, dict, len, bool, any, all, zip, enumerate, reversed, sorted, min, max)
         accepts = getattr(f, "_pyint_accepts_abstract", False) or getattr(getattr(f, "__self__", None), "_pyint_accepts_abstract", False)
+        if not container_method and not accepts:
+            # a repository function handed to a trusted native callable (re.sub(pattern, fn, ..), itertools.takewhile(pred, ..),
+            # sorted(.., key=fn), functools.partial(fn, ..)) is called back into the interpreter
+            def wrap(a):
+                if isinstance(a, Func):
+                    return lambda *aa, **kk: self.apply(a, list(aa), dict(kk), 1)
+                return a
+
+            args = [wrap(a) for a in args]
+            kwargs = {k: wrap(v) for k, v in kwargs.items()}
+        elif f in (sorted, min, max) and isinstance(kwargs.get("key"), Func):
+            kf = kwargs["key"]
+            kwargs = dict(kwargs, key=lambda x: self.apply(kf, [x], {}, 1))
         for a in list(args) + list(kwargs.values()):
             if isinstance(a, (Rec, Func, ClassRef)) and not container_method and not accepts:
                 raise AnalysisError(f"pyint: abstract value passed to a native callable at {where}")
